@@ -354,7 +354,7 @@ def c18():
         builds=[_tab_build(), _sim_build()],
         runs=[_tab_run("allocpfx", 480, 9600), _tab_run("allocspki", 160, 3200),
               dict(name="allocsync", bin="rtrsim", config="asan", mode="allocsync", cases=T(2048, 16384), timeout=2400, chunks=64,
-                   remap_props={"C03": "C18"})],
+                   remap_props={"C03": "C18", "C08:blocked": "C18"})],
         floors={"c18/runs_with_injected_failure": T(15000, 300000), "c18/sync/runs_with_injected_failure": T(1900, 14000),
                 "c18/pfx/leak_checks": T(400, 8000), "c18/spki/leak_checks": T(100, 2000), "c18/sync/leak_checks": T(20, 300),
                 "c18/pfx/validate_hit_by_failure": T(500, 10000)},
